@@ -11,6 +11,7 @@ package main
 
 import (
 	"errors"
+	"math"
 	"regexp"
 	"strings"
 
@@ -155,6 +156,45 @@ func c11D11bCorrespondence(ctx *Ctx) {
 		}
 	}
 	c11D11bGlueCorrespondence(ctx)
+	c11D11bMathCorrespondence(ctx)
+}
+
+// log / pow (D11b.mathTable): the math library's float64 answer on the two arguments, when both are known
+// numbers, is the oracle column
+func c11D11bMathCorrespondence(ctx *Ctx) {
+	per := ctx.N(300, 4000)
+	for _, e := range []struct {
+		c11d11bFn
+		ref func(a, b float64) float64
+	}{{c11d11bFn{"log", "LogFunc", stdlib.LogFunc}, func(a, b float64) float64 { return math.Log(a) / math.Log(b) }},
+		{c11d11bFn{"pow", "PowFunc", stdlib.PowFunc}, math.Pow}} {
+		ps := e.f.Params()
+		fn := c11Fn{e.goVar, e.f, true}
+		for k := 0; k < per; k++ {
+			inject := k%3 != 0
+			args := make([]cty.Value, len(ps))
+			for i := range args {
+				args[i] = c11GenArg(ctx, e.goVar, i, ps[i], inject)
+			}
+			args = c11ApplyBoundaries(ctx, fn, args, inject)
+			if inject && ctx.R.Intn(40) == 0 && len(args) > 0 {
+				args = args[:len(args)-1]
+			}
+			ref := math.NaN()
+			if len(args) == 2 {
+				a, _ := args[0].UnmarkDeep()
+				b, _ := args[1].UnmarkDeep()
+				if a.IsKnown() && !a.IsNull() && a.Type() == cty.Number && b.IsKnown() && !b.IsNull() && b.Type() == cty.Number {
+					fa, _ := a.AsBigFloat().Float64()
+					fb, _ := b.AsBigFloat().Float64()
+					ref = e.ref(fa, fb)
+				}
+			}
+			r := c11D11bInvoke(e.f, args)
+			ctx.Add("d11b.math", r.wire(), e.model, c13EncArgs(args), f64Wire(ref))
+			ctx.Tag("d11b:" + e.model + ":" + r.class)
+		}
+	}
 }
 
 // ---- the string functions that are cty.StringVal ∘ library (D11b.glueTable) ----------------------
